@@ -2,6 +2,7 @@
 import itertools
 
 from harness import common as H
+from harness import c14_sched as SCHED
 
 INFO = {
     'level': 'other',
@@ -12,14 +13,24 @@ INFO = {
         'with arbitrary per-call options, then rate()/predict_*() on a symbolic game, against the same second call on a fresh model: result terms '
         'identical (syntactic, else z3). (iii) ids and names are opaque tokens that record any inspection (hash, eq, str, format, ordering); '
         'no inspection on any path, Rating.__hash__ never called, and the results on rebuilt ratings (fresh ids, no names, distinct objects) are '
-        'identical terms. (iv) Thread interleavings and PYTHONHASHSEED are NOT explored: what is solver-checked are the premises of the usual '
-        'non-interference argument (write set of a call = the ratings passed; no shared mutable state read; nothing hash-order dependent executed).'),
+        'identical terms. (iv) Thread interleavings: for pairs of calls on disjoint ratings through one shared model, every access of the real code to '
+        'shared state (model attributes, mutable containers held by openskill classes / modules / default arguments / closures, lru_cache wrappers) is '
+        'recorded while each call runs alone; the interleaving of the two traces is a vector of integer positions and z3 decides whether any total '
+        'order consistent with both program orders lets a read observe a foreign write with another value than alone (unsat: all interleavings, '
+        'any number of context switches at shared-access granularity, return the serial results). sat orders are forced on two real threads '
+        '(every recorded access waits for its turn) and compared with the serial results; a deliberately racy harness-level subclass must be found '
+        'and reproduced in every job (reachability twin). PYTHONHASHSEED is not varied: the solver-checked premise is that nothing hash-order '
+        'dependent is executed (iii).'),
     'bounds': {
         'quick': 'five models; second call on shapes (1,1) and (2,1) [rate] / (1,1),(1,2,1) [predict_*]; first call concrete with tau in {None, 0, 0.37}, '
                  'limit_sigma in {None, True, False}; model-level limit_sigma in {False, True}; call sequences of length 2',
         'thorough': '+ rate on (1,1,1) with ties (model-level limit_sigma off), predict_win / predict_draw on 4 teams',
+        'schedules': 'two threads, six pairs of calls (rate with per-call options / ranks / scores / tau=0, the three predictions) per model, concrete games; '
+                     'all interleavings of the recorded shared accesses (z3 Int positions)',
     },
-    'outside': ['thread interleavings and PYTHONHASHSEED themselves (not encoded; see (iv))', 'sequences longer than 2 (follow from the empty write set by induction)'],
+    'outside': ['PYTHONHASHSEED itself (not varied; see (iii)/(iv))', 'sequences longer than 2 (follow from the empty write set by induction)',
+                'three or more threads; preemption between two shared accesses that matters only through state the recorder does not see '
+                '(re-bound module globals are detected by snapshot and then only tried on fixed interleavings; C-level state)'],
     'stubs': None,
     'axioms': ['T0/T1 (DESIGN 2.2)'],
     'assumptions': ['real-number semantics (mode R)', 'arithmetic guards assumed (C08)'],
@@ -57,7 +68,7 @@ def jobs(tier):
             for shape in shapes:
                 out.append({'name': f'{key}-mon-{op}-{H.shape_str(shape)}', 'mode': 'mon', 'model': key, 'op': op,
                             'shape': list(shape), 'budget': 600, 'cost': 100 if tm else 30})
-    return out
+    return out + SCHED.jobs(tier)
 
 
 class Opaque:
@@ -319,6 +330,8 @@ def _any_inputs(eng, names):
 
 def run_job(spec, ctx):
     import z3
+    if spec['mode'] == 'sched':
+        return SCHED.run_sched(spec, ctx)
     from sx import core
     core.install()
     key, op, shape = spec['model'], spec['op'], tuple(spec['shape'])
@@ -381,6 +394,8 @@ def run_job(spec, ctx):
 
 
 def replay(cand):
+    if cand.get('mode') == 'sched':
+        return SCHED.replay_sched(cand)
     key, op, shape = cand['model'], cand['op'], tuple(cand['shape'])
     inp = cand.get('inputs') or {}
     if not inp:
